@@ -82,7 +82,7 @@ CHECKS = {
          'DESIGN.md section 3 C10'),
  'C02': ('exploration',
          'exhaustive enumeration of primitive-statement sequences x width x version vs a denotational assembler model with a behavioural wflip chain walker',
-         'All sequences of up to 3 statements over 34 shapes (ops over literals, backward/forward labels, $, constants, label+-k*w, jump words and return addresses that do not fit; '
+         'All sequences of up to 3 statements over 36 shapes (ops over literals, backward/forward labels, $, constants, label+-k*w, jump words and return addresses that do not fit; '
          'seven wflip forms forcing shared / unshared chains; pad 1/2/4; seven segment placements (incl. one that leaves room for exactly two ops below 2^w); four reserves), depth 4 over a '
          '12-shape core and depth 5 over a 6-shape core (all of depth 4 in thorough), at w=8/16/32/64 and fjm versions: if the '
          'layout is possible the program must assemble and every statement word, label, reserved range and segment must match '
